@@ -185,6 +185,106 @@ def _fresh(c):
     return int('-9999') if c == 0 else c
 
 
+def check_wide(chk):
+    """The RowOps definitions (PickRow / Cut / Cutout / MoveField, Record access) on tables WIDER than the TLC-generated
+    ones: 5 fields, every ordered selection, ragged rows, and headers whose field names are ints."""
+    import petl as etl
+    from collections import OrderedDict
+    hdr = ['a', 'b', 'c', 'd', 'e']
+    rows = [[11, 12, 13, 14, 15], [21, 22, 23], [], [41, 42, 43, 44, 45, 46], [51]]
+    t = [hdr] + [list(r) for r in rows]
+
+    def pick(row, idx, missing=None):
+        return tuple(row[i] if i < len(row) else missing for i in idx)
+
+    def viol(what, got, want):
+        chk.violation({'op': what.split('(')[0], 'kind': 'wide'}, '%s on header %r rows %r delivered %r, definition %r' % (what, hdr, rows, got, want),
+                      {'kind': 'wide', 'what': what})
+    n = 0
+    for size in (2, 3, 4, 5):
+        for sel in itertools.permutations(range(5), size):
+            n += 1
+            if size >= 4 and n % 3:
+                continue
+            for spell, args in (('index', list(sel)), ('name', [hdr[i] for i in sel])):
+                for m in (None, 'M'):
+                    want = [tuple(hdr[i] for i in sel)] + [pick(r, sel, m) for r in rows]
+                    try:
+                        got = [tuple(r) for r in (etl.cut(t, *args) if m is None else etl.cut(t, *args, missing=m))]
+                    except Exception as e:
+                        got = 'raised %r' % (e,)
+                    chk.count(('wide-cut', sel, spell, m))
+                    chk.replayed += 1
+                    if got != want:
+                        viol('cut(*%r%s)' % (args, '' if m is None else ', missing=%r' % m), got, want)
+            rest = [i for i in range(5) if i not in sel]
+            want = [tuple(hdr[i] for i in rest)] + [pick(r, rest) for r in rows]
+            try:
+                got = [tuple(r) for r in etl.cutout(t, *[hdr[i] for i in sel])]
+            except Exception as e:
+                got = 'raised %r' % (e,)
+            if got != want:
+                viol('cutout(*%r)' % ([hdr[i] for i in sel],), got, want)
+    # movefield on 5 fields and on a header with int field names
+    for h in (hdr, ['name', 0, 1, 2, 3]):
+        th = [h] + [list(r) for r in rows]
+        for fi, f in enumerate(h):
+            if isinstance(f, int):
+                continue                      # a field addressed by an int is a position, not this name
+            for to in range(5):
+                order = [i for i in range(5) if i != fi]
+                order.insert(to, fi)
+                want = [tuple(h[i] for i in order)] + [pick(r, order) for r in rows]
+                try:
+                    got = [tuple(r) for r in etl.movefield(th, f, to)]
+                except Exception as e:
+                    got = 'raised %r' % (e,)
+                chk.count(('wide-movefield', tuple(map(str, h)), f, to))
+                chk.replayed += 1
+                if got != want:
+                    chk.violation({'op': 'movefield', 'kind': 'wide'}, 'movefield(%r, %d) on header %r rows %r delivered %r, definition %r' % (f, to, h, rows, got, want),
+                                  {'kind': 'wide', 'what': 'movefield'})
+        # cut by name on the int-named header: names that are ints address positions, 'name' its own column
+        if h[0] == 'name':
+            want = [('name',)] + [pick(r, [0]) for r in rows]
+            got = [tuple(r) for r in etl.cut(th, 'name')]
+            if got != want:
+                viol('cut(name) on %r' % (h,), got, want)
+    # Record access: by position, by name and by attribute, short rows read `missing`
+    for m in (None, 'NA', 0):
+        recs = list(etl.records(t, missing=m)) if m is not None else list(etl.records(t))
+        for r, rec in zip(rows, recs):
+            for i, f in enumerate(hdr):
+                want = r[i] if i < len(r) else m
+                try:
+                    got = (rec[i], rec[f], getattr(rec, f))
+                except Exception as e:
+                    got = 'raised %r' % (e,)
+                chk.count(('wide-record', m, i, len(r)))
+                chk.replayed += 1
+                if got != (want, want, want):
+                    chk.violation({'op': 'records', 'kind': 'wide'}, 'records(missing=%r): row %r field %r read by index / name / attribute gives %r, definition %r'
+                                  % (m, r, f, got, want), {'kind': 'wide', 'what': 'records'})
+    # operators that hand the row to user code as a Record: positional access on a short row reads None, nothing is dropped
+    want = [('a', 'c')] + [pick(r, [0, 2]) for r in rows]
+    for label, fn in (('rowmap(lambda row: [row[0], row[2]])', lambda: etl.rowmap(t, lambda row: [row[0], row[2]], header=['a', 'c'])),
+                      ('fieldmap({a: 0, c: 2})', lambda: etl.fieldmap(t, OrderedDict([('a', 0), ('c', 2)]))),
+                      ('fieldmap({a: (0, f), c: lambda rec})', lambda: etl.fieldmap(t, OrderedDict([('a', (0, lambda v: v)), ('c', lambda rec: rec[2])]))),
+                      ('rowmapmany', lambda: etl.rowmapmany(t, lambda row: [[row[0], row[2]]], header=['a', 'c'])),
+                      ('addfield(lambda rec: rec[2]) |> cut', lambda: etl.cut(etl.addfield(t, 'z', lambda rec: rec[2]), 'a', 'z').setheader(['a', 'c'])),
+                      ('convert(pass_row) |> cut', lambda: etl.cut(etl.convert(etl.cut(t, 'a', 'b', 'c'), 'c', lambda v, row: row[2], pass_row=True), 'a', 'c')),
+                      ('select(lambda rec: rec[4] is None or True) |> cut', lambda: etl.cut(etl.select(t, lambda rec: rec[4] is None or True), 'a', 'c'))):
+        try:
+            got = [tuple(r) for r in fn()]
+        except Exception as e:
+            got = 'raised %r' % (e,)
+        chk.count(('wide-recordaccess', label))
+        chk.replayed += 1
+        if got != want:
+            chk.violation({'op': label.split('(')[0], 'kind': 'wide'}, '%s over ragged rows %r delivered %r, definition %r' % (label, rows, got, want),
+                          {'kind': 'wide', 'what': label})
+
+
 def run_fill_case(case, down=False):
     import petl as etl
     t = [list(case['hdr'])] + crows(case['rows'])
@@ -295,6 +395,7 @@ def run(tier, seed):
                 chk.violation({'op': p.split('(')[0].split(' ')[0]}, 'hdr=%r rows=%r: %s' % (case['hdr'], case['rows'], p),
                               {'kind': 'fill', 'case': case, 'down': down})
     chk.sample({'kind': 'rowops-case', 'hdr': cases[200]['hdr'], 'rows': cases[200]['rows'], 'movefield': cases[200]['movefield'][:2]})
+    check_wide(chk)
     traces = record_traces(4000 if full else 600, seed)
     r, verdicts = common.validate('RowOpsTrace', traces)
     chk.add_tlc(r, 'RowOpsTrace')
